@@ -24,12 +24,37 @@ def inplane(A, b):
     return abs(A[2, 2] - 1) < 1e-15 and abs(b[2]) < 1e-15 and np.abs(A[2, :2]).max() < 1e-15 and np.abs(A[:2, 2]).max() < 1e-15
 
 
+def assembly_mesh(dim, elem):
+    """a body assembled from a part and its mirror image (Mesh.Merge of a mesh and of its Symmetry copy): half of the elements are
+    orientation-reversed, the boundary groups of the two halves run in opposite senses - a rigidly moved assembly is still one problem"""
+    from EasyFEA import Mesher
+    from EasyFEA.FEM import ElemType, Mesh
+    from EasyFEA.Geoms import Domain, Point
+
+    dom = Domain(Point(0, 0), Point(2, 3), 1.0)
+    if dim == 2:
+        half = Mesher().Mesh_2D(dom, [], ElemType(elem), isOrganised=(elem == "QUAD4"))
+    else:
+        half = Mesher().Mesh_Extrude(dom, [], [0, 0, 1], [2], ElemType(elem), isOrganised=(elem == "HEXA8"))
+    other = half.copy()
+    other.Symmetry((2, 0, 0), (1, 0, 0))
+    mesh = Mesh.Merge([half, other])
+    if mesh.Nn >= 2 * half.Nn:
+        raise RuntimeError("harness: the two halves of the assembly were not joined")
+    return mesh
+
+
 def solve_continuum(kind, dim, elem, A, b, moves, dynamic=False):
     """returns displacement matrix (Nn, dim) / temperature, energy"""
     from EasyFEA import Models, Simulations
 
+    assembly = kind.endswith("+assembly")
+    kind = kind.split("+")[0]
     with quiet():
-        mesh = base_mesh(dim, elem, False).copy()
+        if assembly:
+            mesh = assembly_mesh(dim, elem)
+        else:
+            mesh = base_mesh(dim, elem, False).copy()
         X0 = mesh.coord.copy()
         apply_moves(mesh, moves)  # the public motions move the mesh
     a1 = A @ np.array([0.6, 0.8, 0.0]) if dim == 2 else A @ np.array([1 / 3, 2 / 3, 2 / 3])
@@ -116,13 +141,13 @@ def run_case(job):
     key = f"{prob[0]}/{'/'.join(('-'.join(p.values()) if isinstance(p, dict) else str(p)) for p in prob[1:])}/{'+'.join(moves) if moves else 'identity'}"
     I = np.eye(3)
     try:
-        if prob[0] in ("iso", "ortho", "thermal"):
+        if prob[0].split("+")[0] in ("iso", "ortho", "thermal"):
             kind, dim, elem, dyn = prob
             if dim == 2 and not inplane(A, b):
                 return None
             u0, W0 = solve_continuum(kind, dim, elem, I, np.zeros(3), [], dyn)
             u1, W1 = solve_continuum(kind, dim, elem, A, b, moves, dyn)
-            exp = u0 if kind == "thermal" else u0 @ A[:dim, :dim].T
+            exp = u0 if kind.split("+")[0] == "thermal" else u0 @ A[:dim, :dim].T
             sc = np.abs(exp).max()
             if np.abs(u1 - exp).max() > TOL * sc:
                 viol.append((f"solution/{key}", f"{key}: solution of the moved problem differs from the moved solution (max relative {np.abs(u1 - exp).max() / sc:.3g})", {"frame": frame, "problem": list(prob)}))
@@ -164,7 +189,7 @@ def run(ctx):
     res = ctx.tlc_must_hold("FrameIndiff", f"FrameIndiff_{'thorough' if ctx.thorough else 'quick'}.cfg", what="AllFramesEqual / Isometry", workers=8)
     ctx.tlc_must_fail("FrameIndiff", "FrameIndiff_neg.cfg", expect="AllFramesEqual")
     frames = res.prints.get("FRAME", [])
-    probs = [("iso", 2, "TRI3", False), ("ortho", 2, "QUAD4", False), ("iso", 3, "TETRA4", False), ("ortho", 3, "HEXA8", False), ("thermal", 2, "TRI6", False), ("thermal", 3, "PRISM6", False),
+    probs = [("iso+assembly", 2, "TRI3", False), ("iso+assembly", 2, "QUAD4", False), ("iso+assembly", 3, "HEXA8", False), ("iso", 2, "TRI3", False), ("ortho", 2, "QUAD4", False), ("iso", 3, "TETRA4", False), ("ortho", 3, "HEXA8", False), ("thermal", 2, "TRI6", False), ("thermal", 3, "PRISM6", False),
              ("iso", 2, "TRI6", True), ("beam", 2, "SEG2", False), ("beam", 2, "SEG3", True), ("beam", 3, "SEG2", False), ("beam", 3, "SEG3", True),
              ("beam", 2, "SEG2", False, True), ("beam", 3, "SEG3", False, True), ("beam", 3, "SEG2", True, True)]   # last flag: one dynamic step (mass matrix)
     if ctx.thorough:
